@@ -133,6 +133,10 @@ def is_sym_raw(v):
     return isinstance(v, z3.ExprRef)
 
 
+NUMERIC_CONSTS = {"u64::MAX": (1 << 64) - 1, "usize::MAX": (1 << 64) - 1, "u32::MAX": (1 << 32) - 1, "u16::MAX": (1 << 16) - 1, "u8::MAX": 255,
+                  "i64::MAX": (1 << 63) - 1, "i32::MAX": (1 << 31) - 1, "u64::MIN": 0, "usize::MIN": 0, "u32::MIN": 0}
+
+
 class Closure:
     def __init__(self, params, body, env):
         self.params = params
@@ -804,6 +808,8 @@ class Interp:
             raise Unsupported("unknown name " + name)
         # multi segment
         full2 = "::".join(segs[-2:])
+        if full2 in NUMERIC_CONSTS:
+            return NUMERIC_CONSTS[full2]
         if full2 in self.prog.consts:
             return self.const(full2)
         if name in self.prog.consts and segs[-2] not in self.prog.enums:
